@@ -516,6 +516,12 @@ where
         &self.names
     }
 
+    /// Verification hook: the cached per-k-mer count column.
+    #[cfg(feature = "verif-hooks")]
+    pub fn verif_counts(&self) -> &[usize] {
+        &self.variant_count
+    }
+
     // Distance between two samples (columns of the array)
     fn variant_dist(
         sample1: &ArrayView<u8, Dim<[usize; 1]>>,
